@@ -1140,3 +1140,95 @@ def rule_tag_ref_of_one_pair(ctx):
                 ctx.violated("TAGREFPAIR", key, f.where(line), "%s() is given the tag `%s` with the reference `%s`, which belongs to another tag/ref pair of the record: the call names an object other than the one meant" % (c[1], render(t)[:50], render(r)[:50]))
     ctx.floor("TAGREFPAIR", 20, n, "(calls given a tag and a reference that are both record members)")
     return n
+
+
+# ---------------------------------------------------------------------------------------------------------------------
+def rule_comparator_width(ctx):
+    """CMPWIDTH (C12, C08): the key comparators handed to tbbtdmake return the *sign* of a difference of two keys.  The
+    difference is formed and returned in `int` (at least as wide as any key): narrowed to a shorter type, keys that lie half
+    that type's range apart compare with the wrong sign, and because look-ups use the tree's in-line fast compare while
+    insertions use the callback, elements are linked where no look-up reaches them (a user tag >= 0x8000 next to
+    DFTAG_VERSION)."""
+    from .facts import kind, strip, walk, render, calls_in
+    prog = ctx.prog
+    cmps = set()
+    for f in prog.lib_funcs():
+        for _b, _i, _s, c in f.calls():
+            if c[1] == "tbbtdmake" and c[3]:
+                a = strip(c[3][0])
+                if kind(a) in ("fn", "var", "ref"):
+                    cmps.add(a[1])
+                elif kind(a) == "addr" and kind(strip(a[1])) in ("fn", "var", "ref"):
+                    cmps.add(strip(a[1])[1])
+    n = 0
+    NARROW = ("int16", "int8", "short", "char", "uint8", "uint16", "signed char", "unsigned char", "unsigned short")
+    for name in sorted(cmps):
+        f = prog.func(name)
+        if f is None:
+            continue
+        n += 1
+        key = "CMPWIDTH:%s" % name
+        bad = None
+        for _b, _i, s, x in f.nodes(True):
+            if x[0] == "cast" and any(x[1].strip() == t for t in NARROW):
+                inner = strip(x[2])
+                if kind(inner) == "bin" and inner[1] == "-":
+                    bad = (s.get("l", f.line), x[1])
+        if bad:
+            ctx.violated("CMPWIDTH", key, f.where(bad[0]), "the key difference is narrowed to `%s` before it is returned: keys half that range apart order the wrong way round, and what the callback inserts the fast compare cannot find" % bad[1])
+        else:
+            ctx.holds("CMPWIDTH", key, f.where(), "the comparator forms and returns its key difference without narrowing it", nontrivial=True)
+    ctx.floor("CMPWIDTH", 3, n, "(comparators handed to tbbtdmake)")
+    return n
+
+
+def rule_lookups_before_create(ctx):
+    """LOOKFIRST (C12): HTPcreate enters a new tag/ref into the directory at once (descriptor claimed, reference marked used,
+    block dirtied).  A routine that also needs an *existing* descriptor (HTPselect, failure = leave with an error) does that
+    look-up first: a look-up that fails after the create leaves the half-made entry behind, and a refused Hdupdd has added a
+    phantom object that Hexist, Hfind and Hnumber report and that survives close and reopen."""
+    from .codec import ast_walk
+    from .facts import calls_in
+    prog = ctx.prog
+    n = 0
+    for f in prog.lib_funcs():
+        ast = f.raw.get("ast")
+        if not ast:
+            continue
+        names = [c[1] for _b, _i, _s, c in f.calls()]
+        if "HTPcreate" not in names or "HTPselect" not in names:
+            continue
+        order = []
+        ast_walk(ast, lambda nd, st: (order.append((nd, list(st))) if nd[0] in ("s", "if") and nd[1] is not None else None, True)[1])
+
+        def exclusive(st_a, nd_a, st_b, nd_b):
+            """are the two statements in different arms of one if?"""
+            ca, cb = st_a + [nd_a], st_b + [nd_b]
+            for i, anc in enumerate(st_a):
+                if i < len(st_b) and st_b[i] is anc and anc[0] == "if":
+                    arm_a = ca[i + 1] if i + 1 < len(ca) else None
+                    arm_b = cb[i + 1] if i + 1 < len(cb) else None
+                    if arm_a is not arm_b and arm_a in (anc[2], anc[3]) and arm_b in (anc[2], anc[3]):
+                        return True
+            return False
+
+        created = None
+        late = None
+        for nd, st in order:
+            for c in calls_in(nd[1], True):
+                if c[1] == "HTPcreate" and created is None:
+                    created = (nd, st)
+                elif c[1] == "HTPselect" and created is not None and nd[0] == "if" and late is None and not exclusive(created[1], created[0], st, nd):
+                    late = (nd, st)
+        created = created[0] if created else None
+        late = late[0] if late else None
+        n += 1
+        key = "LOOKFIRST:%s" % f.name
+        undo = any(c in names for c in ("HTPdelete", "Hdeldd"))
+        line = (late or created)[-3] if isinstance((late or created)[-3], int) else f.line
+        if late is not None and not undo:
+            ctx.violated("LOOKFIRST", key, f.where(line), "a descriptor look-up whose failure ends the routine comes after HTPcreate, and nothing deletes the created descriptor: a refused call leaves a phantom tag/ref in the directory")
+        else:
+            ctx.holds("LOOKFIRST", key, f.where(line), "every failing look-up of an existing descriptor precedes HTPcreate" + (" (or the created descriptor is deleted again)" if late is not None else ""), nontrivial=True)
+    ctx.floor("LOOKFIRST", 1, n, "(routines that look up one descriptor and create another)")
+    return n
